@@ -527,6 +527,9 @@ func genPlacers(r *repo, o *out) {
 							if rs, ok := b.(*ast.ReturnStmt); ok && len(rs.Results) > 0 {
 								if ce, ok := rs.Results[0].(*ast.CallExpr); ok {
 									action = r.src(ce.Fun)
+									if len(ce.Args) == 3 { // a placer call: which writability is asked for
+										action += ":" + r.src(ce.Args[2])
+									}
 								}
 							}
 							if es, ok := b.(*ast.ExprStmt); ok {
